@@ -103,21 +103,25 @@ func ProdCheck(t *ReadTable, c *ref.CFG) string {
 // production" where actions compete) and every goto. If it closes, the two machines are identical up to state
 // numbering: equal verdicts and reduction sequences on token sequences of every length.
 func LRProduct(t *ReadTable, lr *ref.LR) *LRResult {
-	res := &LRResult{}
 	if m := ProdCheck(t, lr.C); m != "" {
-		res.Mismatch = m
-		return res
+		return &LRResult{Mismatch: m}
 	}
+	return LRProductT(t, t.Names, lr, func(e, r int) bool { return e == r })
+}
+
+// LRProductT is the product over any table; names are the table's own terminal names (a column the grammar does not
+// know must be empty), sameProd decides whether emitted production e corresponds to reference production r.
+func LRProductT(t ref.Table, names []string, lr *ref.LR, sameProd func(e, r int) bool) *LRResult {
+	res := &LRResult{}
 	type pair struct{ e, r int }
 	seen := map[pair]bool{{0, 0}: true}
 	todo := []pair{{0, 0}}
 	terms := append([]string{ref.EOF}, lr.C.Terms...)
-	// also every emitted column name (an action in a column the grammar does not know is a mismatch)
 	known := map[string]bool{}
 	for _, x := range terms {
 		known[x] = true
 	}
-	for _, n := range t.Names {
+	for _, n := range names {
 		if !known[n] {
 			known[n] = true
 			terms = append(terms, n)
@@ -127,10 +131,6 @@ func LRProduct(t *ReadTable, lr *ref.LR) *LRResult {
 		cur := todo[len(todo)-1]
 		todo = todo[:len(todo)-1]
 		res.Pairs++
-		if cur.e < 0 || cur.e >= len(t.P.Actions) {
-			res.Mismatch = fmt.Sprintf("emitted table refers to state %d which does not exist", cur.e)
-			return res
-		}
 		for _, x := range terms {
 			res.Edges++
 			ea, eok := t.Action(cur.e, x)
@@ -145,7 +145,7 @@ func LRProduct(t *ReadTable, lr *ref.LR) *LRResult {
 			if !eok {
 				continue
 			}
-			if ea.Kind != ra.Kind || (ea.Kind == 'r' && ea.N != ra.N) {
+			if ea.Kind != ra.Kind || (ea.Kind == 'r' && !sameProd(ea.N, ra.N)) {
 				res.Mismatch = fmt.Sprintf("state %d/%d on %s: emitted %v, canonical LR(1) resolved by the rule %v (competing: %v)", cur.e, cur.r, x, ea, ra, lr.Actions[cur.r][x])
 				return res
 			}
